@@ -20,7 +20,14 @@ fn make_val(id: u64, subnet: Option<u64>) -> Enr {
     let mut r = Rng::new((id / 8).wrapping_mul(0x1234_5678_9ABC_DEF1) ^ 0xA5A5);
     let key: CombinedKey = key_from(&mut r);
     let ip4 = subnet.map(|s| (Ipv4Addr::new(10, (s >> 8) as u8, s as u8, (id % 250 + 1) as u8), 9000 + (id % 1000) as u16));
-    make_enr(&key, id + 1, ip4, None, 0)
+    // records without IPv4 often have an IPv6 address from the low end of the address space
+    // (`::a.b.c.d` would read as an IPv4 address if somebody converted it)
+    let ip6 = if subnet.is_none() && id % 2 == 0 {
+        Some((std::net::Ipv6Addr::new(0, 0, 0, 0, 0, 0, 0, (id % 200 + 1) as u16), 9000 + (id % 1000) as u16))
+    } else {
+        None
+    };
+    make_enr(&key, id + 1, ip4, ip6, 0)
 }
 
 fn parse_val(s: &str) -> Option<(u64, Option<u64>)> {
@@ -413,6 +420,9 @@ impl Runner for KbucketRunner {
                 stats.bump(&format!("kins.{}", s.split(':').next().unwrap()));
                 if let InsertResult::Failed(f) = &r {
                     stats.bump(&format!("kins.failed.{}", fail_name(f)));
+                    if matches!(f, FailureReason::BucketFilter | FailureReason::TableFilter) && parse_val(val).map(|(_, sub)| sub.is_none()).unwrap_or(false) {
+                        out.push(format!("!MON C16 record-without-ipv4-refused-by-ip-filter op=kins reason={}", fail_name(f)));
+                    }
                 }
                 self.monitors("kins", Some(k.preimage().raw()), true, out, stats);
                 out.push(s);
@@ -425,6 +435,11 @@ impl Runner for KbucketRunner {
                 let st = parse_state(state);
                 let r = self.table.as_mut().unwrap().update_node(&k, v, st);
                 let s = show_upd(&r);
+                if let UpdateResult::Failed(f) = &r {
+                    if matches!(f, FailureReason::BucketFilter | FailureReason::TableFilter) && parse_val(val).map(|(_, sub)| sub.is_none()).unwrap_or(false) {
+                        out.push(format!("!MON C16 record-without-ipv4-refused-by-ip-filter op=kupd reason={}", fail_name(f)));
+                    }
+                }
                 stats.bump(&format!("kupd.{}", s));
                 self.monitors("kupd", Some(k.preimage().raw()), st.is_some(), out, stats);
                 out.push(s);
